@@ -30,7 +30,8 @@ def outcome_variants(rng, n, edges, k, big_p=0.25, missing_p=0.2):
             behav.append(b)
         missing = [i for i in range(n) if inputs[i] and rng.random() < missing_p]
         unspawnable = [i for i in range(n) if rng.random() < 0.08]
-        out.append(sc.mk_case(sc.mk_spec(n, edges, kinds, whens, inputs, unspawnable=unspawnable), rng.choice([1, 2, 4]), behav,
+        generic = [i for i in range(n) if rng.random() < 0.12]
+        out.append(sc.mk_case(sc.mk_spec(n, edges, kinds, whens, inputs, unspawnable=unspawnable, generic=generic), rng.choice([1, 2, 4]), behav,
                               runs=2 if rng.random() < 0.2 else 1, missing=missing, label='outcomes'))
     return out
 
@@ -95,6 +96,29 @@ def gen_cases(chk, quick):
     return cases
 
 
+def gen_lock_cases(chk, quick):
+    """Comparisons of CHANGED dependencies on 2-4 parallel steps: generic (command output), lines, regex, param, glob and
+    several large sparse files per step, so that the comparison of one step is still running while the others publish their
+    results into the shared maps.  A thread that blocks on one of the shared locks (e.g. takes `dependency_diffs`
+    recursively) shows as a run that never terminates.  All commands succeed; every dependency is changed before every run."""
+    cases = []
+    reps = 5 if quick else 12
+    # the shape of /verif/seeded/C11-1/demo.sh: one step with a generic + 6 big files, two steps with one big file
+    spec = sc.mk_spec(3, [], generic=[0], bigfiles={0: [24] * 6, 1: [12], 2: [24]})
+    cases.append(sc.mk_case(spec, 4, runs=reps, label='lock/generic+6big|1big|1big'))
+    # every step has a generic dependency and big files of different sizes
+    spec = sc.mk_spec(3, [], generic=[0, 1, 2], bigfiles={0: [24] * 5, 1: [16] * 4, 2: [8] * 3})
+    cases.append(sc.mk_case(spec, 4, runs=reps, label='lock/3x(generic+big)'))
+    # four parallel steps, all kinds of non-file dependencies next to big files; a fifth step depends on two of them
+    spec = sc.mk_spec(5, [(4, 0, 'step'), (4, 1, 'step')], generic=[0, 1, 3], textdeps=[0, 2],
+                      bigfiles={0: [24] * 4, 1: [24] * 2, 2: [12] * 3, 3: [6]})
+    cases.append(sc.mk_case(spec, 2, runs=reps, label='lock/4-parallel-mixed'))
+    # two steps only
+    spec = sc.mk_spec(2, [], generic=[0], textdeps=[1], bigfiles={0: [32] * 4, 1: [16]})
+    cases.append(sc.mk_case(spec, 2, runs=reps, label='lock/2-parallel'))
+    return cases
+
+
 def run(chk):
     quick = chk.tier == 'quick'
     ctx = sc.prepare(chk, PROPS)
@@ -106,9 +130,15 @@ def run(chk):
         'a command writing {0,1000,70000,300000} bytes to stdout x the same to stderr (pipe capacity 65536), succeeding or failing, with a dependent; ' +
         ('60 of the 543 DAGs on 4 steps + all DAGs on 2..3 steps' if quick else 'ALL 543 DAGs on 4 steps x 4 + all DAGs on <= 3 steps x 10 + 150 random DAGs on 5..8 steps') +
         ' with random outcomes (35 % failing commands, 20 % of the private input files missing, 25 % large outputs), when-options, pools 1/2/4, one or two runs. '
+        'LOCK STREAM: 4 pipelines with 2-4 parallel steps whose dependencies (generic command output, lines, regex, param, glob and 1-6 sparse files of '
+        '6-32 MiB each) are ALL changed before every run, 5 (quick) / 12 (thorough) consecutive runs each on the hook-free binary and 2 on the hook build; '
+        'a run still alive after 15 s is observed for 3-60 s more and counts as hung only if it stays alive without using CPU; '
+        '12 % of the steps of the random families also get a generic dependency. '
         'Each case runs on the hook-free binary and on the hook build with seeded delays (traces validated by the model driver). Timeout 12 s (quick) / 20 s (thorough) per run '
         '(commands sleep <= 90 ms).')
     chk.extra['exhaustive'] = not quick
+    lock_cases = gen_lock_cases(chk, quick)
+    sc.run_family(ctx, 'locks/plain', lock_cases, OWN, hook=False, timeout=15, workers=2, confirm=False, shrink=False)
     sc.run_family(ctx, 'outcomes/plain', cases, OWN, hook=False, timeout=12 if quick else 20)
     if ctx.xvc_hook:
         hooked = []
@@ -117,6 +147,8 @@ def run(chk):
             c2['sched'] = f'{chk.seed * 15485863 + k}:{chk.rng.choice([0, 200, 1500, 5000])}'
             hooked.append(c2)
         sc.run_family(ctx, 'outcomes/hook', hooked, OWN, hook=True, timeout=12 if quick else 20)
+        hooked_locks = [dict(c, sched=f'{chk.seed * 31 + k}:200', runs=2) for k, c in enumerate(lock_cases)]
+        sc.run_family(ctx, 'locks/hook', hooked_locks, OWN, hook=True, timeout=15, workers=2, confirm=False, shrink=False)
     return chk.finish()
 
 
